@@ -48,13 +48,13 @@ def gen_case(seed, i, nperm):
     return {'id': i, 'kind': kind, 'json_ast': js, 'cfgspecs': permutations_of(rng.fork('perm'), cfg, nperm)}
 
 
-PROCESS_KINDS = ['plain', 'model-files-exist', 'model-files-are-symlinks', 'other-locale-home-and-depth']
+PROCESS_KINDS = ['plain', 'model-files-exist', 'model-files-are-symlinks', 'other-locale-home-and-depth', 'optimised-interpreter']
 
 
 def process_kind(hashseed):
     """"The process it runs in" is varied together with the hash seed (a pure function of it, so that a replay re-creates
     the same process): working directory, what the file system shows at the configured model file name (nothing / a
-    regular file / a symbolic link to a file of another name), locale, HOME, TZ."""
+    regular file / a symbolic link to a file of another name), locale, HOME, TZ, interpreter options (-OO -B -X dev)."""
     return PROCESS_KINDS[hashseed % len(PROCESS_KINDS)]
 
 
@@ -99,7 +99,10 @@ def run_child(hashseed, cases, keep_contents=False, timeout=900):
             env.update({'LC_ALL': 'C', 'LANG': 'C', 'TZ': 'Pacific/Kiritimati', 'HOME': cwd, 'USER': 'somebody-else', 'COLUMNS': '37'})
         req = {'mode': 'build', 'keep_contents': keep_contents,
                'cases': [{'id': c['id'], 'json_ast': c['json_ast'], 'cfgspecs': c['cfgspecs']} for c in cases]}
-        p = subprocess.run([sys.executable, CHILD], input=json.dumps(req).encode('utf-8'), stdout=subprocess.PIPE,
+        # interpreter options are properties of the process as well: -OO strips asserts and docstrings, -B/-s/-X dev change
+        # nothing a pure function of (model, configuration) may depend on
+        flags = ['-OO', '-B', '-X', 'dev'] if kind == 'optimised-interpreter' else []
+        p = subprocess.run([sys.executable] + flags + [CHILD], input=json.dumps(req).encode('utf-8'), stdout=subprocess.PIPE,
                            stderr=subprocess.PIPE, env=env, timeout=timeout, cwd=cwd)
     finally:
         shutil.rmtree(root, ignore_errors=True)
